@@ -94,6 +94,15 @@ def main(tier):
                 base.append(scenario(random.Random(rng.randrange(1 << 30)), k, defect=d, prior=prior, stale=stale,
                                      v1index=(prior in ("other", "same") and k % 2 == 0)))
                 k += 1
+    # a long-lived project: more than a thousand recorded versions go through one archive / restore
+    bulk_rng = random.Random(rng.randrange(1 << 30))
+    bulk = {"project": G.base_project(bulk_rng), "tag": [k, "bulk", "empty", False, None],
+            "_meta": {"defect": ("none", None, None), "prior": "bulk", "stale": False, "v1index": False},
+            "steps": [G.run_step(bulk_rng, 100, again=False, p_fail=0.0), {"cmd": "bulk", "n": 600 if tier == "quick" else 2600},
+                      {"cmd": "archive", "argv": ["archive", "-o", "../A.tar.gz"], "out": "../A.tar.gz", "sel": {}},
+                      {"cmd": "clean", "argv": ["clean", "-f"]},
+                      {"cmd": "restore", "argv": ["restore", "../A.tar.gz"], "archive": "../A.tar.gz", "defect": "none", "label": "target"}]}
+    base.append(bulk)
     hists, traces, verdicts, tr, other, nontriv = F.run_and_judge(rep, base, CLAUSES, sig_fn=sig)
     # pass 2: kill the target restore before every effectful call
     crash_scns = []
